@@ -233,6 +233,52 @@ def rule_d(model, rep):
               f"text branch starts {first}; 'true' in _true_set={isinstance(ts, (set, frozenset)) and 'true' in ts}; 'false' in _false_set={isinstance(fs, (set, frozenset)) and 'false' in fs}",
               "as_bool() lower-cases every text value before the table lookup, so the 'True'/'False' that to_string() writes for boolean options are read back",
               witness="CryptContext.from_string(ctx.to_string()) raises ValueError('unrecognized ... value: True') for a context with truncate_error=True")
+    # None ("unset this option", the idiom copy(opt=None) uses) has no INI spelling: the writer must skip it rather than fail
+    wp = model.func(CTX, "CryptContext._write_to_parser")
+    skips_none = any(isinstance(n, ast.If) and ast.unparse(n.test) in ("v is None", "value is None") and n.body and isinstance(n.body[-1], ast.Continue) for n in walk_no_nested(wp))
+    rv = model.func(CTX, "CryptContext._render_ini_value")
+    handles_none = any(isinstance(n, ast.If) and "value is None" in ast.unparse(n.test) for n in walk_no_nested(rv))
+    rep.check(skips_none or handles_none, R, f"{CTX}:CryptContext._write_to_parser", "None values are handed to _render_ini_value(), which asserts a str",
+              "an option set to None (accepted by load/copy/update and exported by to_dict()) is left out of the INI text",
+              witness="ctx.copy(sha256_crypt__max_rounds=None).to_string() raises AssertionError('expected string for key ...')")
+    # numbers: INI text hands every value back as a string; a numeric option is either in the context's coercion table or its
+    # sanitiser accepts numeric text (int() / norm_integer()); otherwise the context cannot load its own export
+    from .shared import NUMERIC_OPTION_NAMES
+    from pv.handlers import HandlerTable
+    table = HandlerTable(model)
+    cnode = model.unit(CTX).assigns.get("_coerce_scheme_options")
+    coerced = {k.arg for k in cnode[0].keywords} if cnode and isinstance(cnode[0], ast.Call) else set()
+    if not coerced:
+        rep.undecided(R, f"{CTX}:_coerce_scheme_options", "coercion table not found")
+    nn = 0
+    seen = set()
+    for h in table:
+        if h.kind not in ("class", "factory") or h.cref is None:
+            continue
+        for k in model.mro(h.cref):
+            if k[0] not in model.units or k[1] not in model.units[k[0]].classes or k in seen:
+                continue
+            seen.add(k)
+            mem = model.class_members(k)
+            us = mem.get("using")
+            if not isinstance(us, ast.FunctionDef):
+                continue
+            for prm in params(us):
+                if prm not in NUMERIC_OPTION_NAMES or prm in ("relaxed", "truncate_error"):
+                    continue
+                # sanitiser the value goes through
+                calls = [c for c in walk_no_nested(us) if isinstance(c, ast.Call) and isinstance(c.func, ast.Attribute) and c.func.attr.startswith("_norm_") and c.args and ast.unparse(c.args[0]) == prm]
+                if not calls:
+                    continue
+                nn += 1
+                o, nf = model.method(k, calls[0].func.attr, required=False)
+                txt = ast.unparse(nf) if nf is not None else ""
+                tolerant = prm in coerced or "norm_integer(" in txt or "int(" in txt or "_norm_integer" in txt or f"isinstance({prm}, str)" in txt
+                rep.check(tolerant, R, f"{k[0]}:{k[1]}.{calls[0].func.attr}", f"`{prm}`: not in _coerce_scheme_options {sorted(coerced)} and {calls[0].func.attr}() does not convert text",
+                          f"numeric option `{prm}` survives the INI round trip (coerced by the context or by its sanitiser)",
+                          witness=f"CryptContext(['{h.name}'], {h.name}__{prm}=1): from_string(ctx.to_string()) raises ValueError -- the exported '1' is compared with integers")
+    if nn < 4:
+        rep.undecided(R, "<instance-count>", f"only {nn} numeric option sanitisers found, expected at least 4")
     # coercers
     co = model.fold(model.unit(CTX), ast.Name(id="_coerce_scheme_options", ctx=ast.Load()))
     u = model.unit(CTX)
@@ -255,6 +301,50 @@ def rule_d(model, rep):
     rep.check("return dict(p.items(section))" in qtext(fn), R, site("CryptContext._parse_ini_stream"), "dict(p.items(section))", "INI import reads the section")
 
 
+def rule_case(model, rep):
+    """category names are free-form strings and part of every key; ConfigParser lower-cases option names unless told otherwise"""
+    R = "C10.d-key-value-codecs"
+    unit = model.unit(CTX)
+    sites = []
+    for q, fn in unit.functions():
+        for n in walk_no_nested(fn):
+            if isinstance(n, ast.Assign) and isinstance(n.value, ast.Call) and ast.unparse(n.value.func) == "ConfigParser" and isinstance(n.targets[0], ast.Name):
+                name = n.targets[0].id
+                keeps = any(isinstance(x, ast.Assign) and ast.unparse(x.targets[0]) == f"{name}.optionxform" for x in walk_no_nested(fn))
+                sites.append((q, name, keeps))
+    if len(sites) < 2:
+        rep.undecided(R, f"{CTX}:ConfigParser", f"only {len(sites)} ConfigParser instances found, expected 2 (writer and reader)")
+    for q, name, keeps in sites:
+        if keeps:
+            rep.hold(R, f"{CTX}:{q} option case", "optionxform set: keys keep their case")
+        else:
+            rep.violation(R, f"{CTX}:{q} option case", f"{name} = ConfigParser()  # default optionxform lower-cases every key",
+                          "keys are written to / read from INI text through a parser that lower-cases option names, but the category part of a key is a free-form, case-sensitive string",
+                          witness="CryptContext(schemes=['sha256_crypt','md5_crypt'], Admin__context__default='md5_crypt'): after from_string(ctx.to_string()) "
+                                  "default_scheme(category='Admin') is 'sha256_crypt' (the key came back as 'admin__context__default'); categories 'Admin' and 'admin' collapse")
+
+
+def rule_lazy(model, rep):
+    """a failed *first* load of a LazyCryptContext leaves it as it was: still unloaded, with its pending options intact"""
+    R = "C10.e-lazy-first-load"
+    fn = model.func(CTX, "LazyCryptContext._lazy_init")
+    tries = [n for n in walk_no_nested(fn) if isinstance(n, ast.Try)]
+    clears = [n for n in walk_no_nested(fn) if isinstance(n, ast.Assign) and ast.unparse(n.targets[0]) == "self._lazy_kwds" and isinstance(n.value, ast.Constant) and n.value.value is None]
+    restores = [h for t in tries for h in t.handlers if any(isinstance(x, ast.Assign) and ast.unparse(x.targets[0]) == "self._lazy_kwds" and not (isinstance(x.value, ast.Constant) and x.value.value is None) for x in h.body)
+                and any(isinstance(x, ast.Raise) and x.exc is None for x in h.body)]
+    rep.check(len(clears) == 1, R, f"{CTX}:LazyCryptContext._lazy_init", f"{len(clears)} stores clearing the pending options", "the pending options are consumed once")
+    rep.check(bool(restores), R, f"{CTX}:LazyCryptContext._lazy_init restore", "pending options are cleared before onload()/__init__ run and never restored when they raise",
+              "when the first load raises, the pending options are put back (and the exception re-raised), so the context is still the unloaded lazy context",
+              witness="LazyCryptContext(['sha256_crypt'], bogus_option=1): the first access raises KeyError; every later call raises AttributeError / "
+                      "TypeError: 'NoneType' object is not callable -- onload is never retried")
+    pops = [c for c in walk_no_nested(fn) if isinstance(c, ast.Call) and ast.unparse(c.func).endswith(".pop") and c.args and ast.unparse(c.args[0]) == "'onload'"]
+    if pops:
+        recv = ast.unparse(pops[0].func.value)
+        copied = any(isinstance(n, ast.Assign) and ast.unparse(n.targets[0]) == recv and isinstance(n.value, ast.Call) and ast.unparse(n.value.func) in ("dict", f"{recv}.copy") for n in walk_no_nested(fn)) or \
+            any(isinstance(n, ast.Assign) and ast.unparse(n.targets[0]) == recv and ast.unparse(n.value).endswith(".copy()") for n in walk_no_nested(fn))
+        rep.check(copied, R, f"{CTX}:LazyCryptContext._lazy_init onload", f"{ast.unparse(pops[0])} mutates the stored options", "`onload` is popped from a copy, so a retry after a failure still has it")
+
+
 def run(model, rep):
     rep.explanation = __doc__
     rep.assumptions = ["attribute assignment and dict.pop(k, None) cannot raise", "memoized_property.clear_cache(self) cannot raise"]
@@ -262,3 +352,5 @@ def run(model, rep):
     rule_b(model, rep)
     rule_c(model, rep)
     rule_d(model, rep)
+    rule_case(model, rep)
+    rule_lazy(model, rep)
